@@ -80,10 +80,29 @@ def do_import(src, remap=False):
         json.dump(meta, open(dst + '/meta.json', 'w'), indent=1)
         print('imported', dst)
 
+MIRROR = os.environ.get('MIRROR') == '1'   # work on /tmp/repo-seed + /tmp/vmirror (see seedtest_mirror.sh) instead of /repo + /verif
+REPO = '/tmp/repo-seed' if MIRROR else '/repo'
+VDIR = '/tmp/vmirror' if MIRROR else '/verif'
+
+def prepare_mirror():
+    os.makedirs(VDIR, exist_ok=True)
+    subprocess.run(['rsync', '-a', '--delete', '--exclude', 'bin', '/verif/harness/', VDIR + '/harness/'], check=True)
+    for f in ('check.sh', 'known_findings.txt'):
+        shutil.copy('/verif/' + f, VDIR + '/' + f)
+    subprocess.run(['sed', '-i', 's#=> /repo#=> %s#' % REPO, VDIR + '/harness/go.mod'], check=True)
+    head = subprocess.run(['git', '-C', '/repo', 'rev-parse', 'HEAD'], capture_output=True, text=True).stdout.strip()
+    if not os.path.isdir(REPO):
+        subprocess.run(['git', '-C', '/repo', 'worktree', 'add', '-q', '--detach', REPO, head], check=True)
+    subprocess.run(['git', '-C', REPO, 'checkout', '-q', '--', '.'])
+    subprocess.run(['git', '-C', REPO, 'clean', '-fdq'])
+    subprocess.run(['git', '-C', REPO, 'checkout', '-q', '--detach', head], check=True)
+
 def repo_clean():
-    return subprocess.run(['git', '-C', '/repo', 'status', '--porcelain'], capture_output=True, text=True).stdout.strip() == ''
+    return subprocess.run(['git', '-C', REPO, 'status', '--porcelain'], capture_output=True, text=True).stdout.strip() == ''
 
 def run(sel):
+    if MIRROR:
+        prepare_mirror()
     dirs = sorted(glob.glob(SEEDED + '/C??/?/'))
     for d in dirs:
         prop, var = d.rstrip('/').split('/')[-2:]
@@ -93,15 +112,21 @@ def run(sel):
             print('repo dirty - abort'); sys.exit(2)
         meta = json.load(open(d + 'meta.json'))
         t0 = time.time()
-        r = subprocess.run(['git', '-C', '/repo', 'apply', d + 'patch.diff'])
+        if 'neutralised' in meta.get('check', {}).get('result', ''):
+            print(prop, var, 'skipped:', meta['check']['result'], flush=True)
+            continue
+        r = subprocess.run(['git', '-C', REPO, 'apply', d + 'patch.diff'])
         if r.returncode != 0:
             meta['check'] = {'result': 'patch does not apply'}
         else:
             try:
-                p = subprocess.run(['timeout', os.environ.get('SEED_TIMEOUT', '1000'), './check.sh', prop, 'quick'], cwd='/verif', capture_output=True, text=True)
+                env = dict(os.environ)
+                if MIRROR:
+                    env['VERIF_DIR'] = VDIR
+                p = subprocess.run(['timeout', os.environ.get('SEED_TIMEOUT', '1000'), './check.sh', prop, 'quick'], cwd=VDIR, capture_output=True, text=True, env=env)
             finally:
-                subprocess.run(['git', '-C', '/repo', 'checkout', '--', '.'])
-                subprocess.run(['git', '-C', '/repo', 'clean', '-fdq'])
+                subprocess.run(['git', '-C', REPO, 'checkout', '--', '.'])
+                subprocess.run(['git', '-C', REPO, 'clean', '-fdq'])
             lines = p.stdout.splitlines()
             vio = [l for l in lines if l.startswith('VIOLATION')]
             sigs = []
